@@ -203,3 +203,110 @@ func (e *Endpoint) StopAgent() {
 
 // PortBase returns the start of this process's private range for ssync receivers.
 func PortBase() int { return 12000 + (os.Getpid()%1000)*20 }
+
+// ---- gates: the harness can hold a matching REST request before it is handled, or its response
+// after it was handled, to schedule the steps of a real multi-request procedure -------------------
+
+// Gate holds the first request for which Match is true.
+type Gate struct {
+	Match   func(r *http.Request) bool
+	After   bool          // hold the response (the handler has run) instead of the request
+	Reached chan struct{} // closed when a request arrived at the gate
+	release chan struct{}
+	once    sync.Once
+}
+
+// NewGate makes an armed gate.
+func NewGate(after bool, match func(r *http.Request) bool) *Gate {
+	return &Gate{Match: match, After: after, Reached: make(chan struct{}), release: make(chan struct{})}
+}
+
+// Release lets the held request (or any later one) through.
+func (g *Gate) Release() { g.once.Do(func() { close(g.release) }) }
+
+// Action matches POST …?action=name.
+func Action(name string) func(r *http.Request) bool {
+	return func(r *http.Request) bool { return r.Method == "POST" && r.URL.Query().Get("action") == name }
+}
+
+type gated struct {
+	mu    sync.Mutex
+	gates []*Gate
+	h     http.Handler
+}
+
+func (g *gated) ServeHTTP(w http.ResponseWriter, r *http.Request) {
+	g.mu.Lock()
+	var hit *Gate
+	for _, x := range g.gates {
+		select {
+		case <-x.Reached:
+			continue // already used
+		default:
+		}
+		if x.Match(r) {
+			hit = x
+			break
+		}
+	}
+	g.mu.Unlock()
+	if hit != nil && !hit.After {
+		close(hit.Reached)
+		<-hit.release
+	}
+	g.h.ServeHTTP(w, r)
+	if hit != nil && hit.After {
+		close(hit.Reached)
+		<-hit.release
+	}
+}
+
+// SetGated points the endpoint at s like Set, with gates on its REST requests.
+func (e *Endpoint) SetGated(s *replica.Server, gates ...*Gate) {
+	e.cur.Store(&holder{s: s, h: &gated{gates: gates, h: rest.NewRouter(rest.NewServer(s))}})
+	e.mu.Lock()
+	for c := range e.conns {
+		c.Close()
+	}
+	e.mu.Unlock()
+}
+
+// Control is a controller's REST endpoint (ip:9501).
+type Control struct {
+	IP  string
+	cur atomic.Value // http.Handler
+}
+
+var ctls = map[string]*Control{}
+
+// UpControl returns the controller endpoint for ip, creating its listener on first use.
+func UpControl(ip string) (*Control, error) {
+	mu.Lock()
+	defer mu.Unlock()
+	if c, ok := ctls[ip]; ok {
+		return c, nil
+	}
+	c := &Control{IP: ip}
+	ln, err := net.Listen("tcp", ip+":9501")
+	if err != nil {
+		return nil, err
+	}
+	go http.Serve(ln, http.HandlerFunc(func(w http.ResponseWriter, r *http.Request) {
+		h, _ := c.cur.Load().(*gated)
+		if h == nil || h.h == nil {
+			http.Error(w, "no controller", 503)
+			return
+		}
+		h.ServeHTTP(w, r)
+	}))
+	ctls[ip] = c
+	return c, nil
+}
+
+// URL is what sync.NewTask / the controller client take.
+func (c *Control) URL() string { return "http://" + c.IP + ":9501" }
+
+// Set serves h (nil: nothing) behind the gates.
+func (c *Control) Set(h http.Handler, gates ...*Gate) {
+	c.cur.Store(&gated{gates: gates, h: h})
+}
